@@ -69,8 +69,10 @@ func (o *Once) Do(f func()) {
 	}
 }
 
-func where() string {
-	_, f, l, _ := runtime.Caller(3)
+func where() string { return whereN(4) }
+
+func whereN(skip int) string {
+	_, f, l, _ := runtime.Caller(skip)
 	n := 0
 	for i := len(f) - 1; i >= 0; i-- {
 		if f[i] == '/' {
@@ -189,4 +191,83 @@ func (m *RWMutex) unlock(write bool) {
 		m.readers--
 	}
 	gmu.Unlock()
+}
+
+// Cond is sync.Cond under the scheduler: Wait releases L, parks until a Signal or Broadcast has
+// chosen this waiter (FIFO, as the runtime's notify list) and then takes L again - which is a
+// scheduling point of its own, so another goroutine may get L first, exactly as with the real one.
+type Cond struct {
+	L       Locker
+	waiters []*condWaiter
+}
+
+type condWaiter struct{ woken bool }
+
+func NewCond(l Locker) *Cond { return &Cond{L: l} }
+
+func (c *Cond) Wait() {
+	w := &condWaiter{}
+	gmu.Lock()
+	c.waiters = append(c.waiters, w)
+	gmu.Unlock()
+	c.L.Unlock()
+	s := sim.Cur
+	if s == nil || s.IsSchedGoroutine() {
+		for {
+			gmu.Lock()
+			ok := w.woken
+			gmu.Unlock()
+			if ok {
+				break
+			}
+			if s != nil {
+				panic("simsync: Cond.Wait on the scheduler goroutine at " + whereN(2))
+			}
+			time.Sleep(20 * time.Microsecond)
+		}
+	} else {
+		ch := make(chan struct{})
+		s.Add(&sim.Item{Key: "cond:" + whereN(2),
+			Ready: func() bool { gmu.Lock(); defer gmu.Unlock(); return w.woken },
+			Fire:  func(int) { close(ch) }})
+		<-ch
+	}
+	c.L.Lock()
+}
+
+func (c *Cond) Signal() {
+	gmu.Lock()
+	if len(c.waiters) > 0 {
+		c.waiters[0].woken = true
+		c.waiters = c.waiters[1:]
+	}
+	gmu.Unlock()
+}
+
+func (c *Cond) Broadcast() {
+	gmu.Lock()
+	for _, w := range c.waiters {
+		w.woken = true
+	}
+	c.waiters = nil
+	gmu.Unlock()
+}
+
+// OnceFunc, OnceValue and OnceValues as in package sync, on top of the simulated Once.
+func OnceFunc(f func()) func() {
+	var o Once
+	return func() { o.Do(f) }
+}
+
+func OnceValue[T any](f func() T) func() T {
+	var o Once
+	var v T
+	return func() T { o.Do(func() { v = f() }); return v }
+}
+
+func OnceValues[T1, T2 any](f func() (T1, T2)) func() (T1, T2) {
+	var o Once
+	var v1 T1
+	var v2 T2
+	return func() (T1, T2) { o.Do(func() { v1, v2 = f() }); return v1, v2 }
 }
